@@ -70,6 +70,19 @@ pub proof fn lemma_dvd_mul(d: nat, k: nat)
     super::nl::lemma_mul_comm(d as int, k as int);
 }
 
+pub proof fn lemma_dvd_mul_right(d: nat, n: nat, k: nat)
+    requires dvd(d, n)
+    ensures dvd(d, n * k), dvd(d, k * n)
+{
+    vstd::arithmetic::div_mod::lemma_fundamental_div_mod(n as int, d as int);
+    let q = n / d;
+    // n * k = d * (q * k)
+    super::nl::lemma_mul_assoc(d as int, q as int, k as int);
+    super::nl::lemma_mul_comm(n as int, k as int);
+    super::nl::lemma_mul_nonneg(q as int, k as int);
+    lemma_dvd_mul(d, q * k);
+}
+
 pub proof fn lemma_dvd_witness(d: nat, n: nat) -> (k: nat)
     requires dvd(d, n)
     ensures n == d * k
